@@ -5,12 +5,18 @@
      structure := BGNSTR STRNAME {STRCLASS} {element} ENDSTR
      element   := BOUNDARY flags LAYER DATATYPE XY+ props ENDEL
                 | BOX      flags LAYER BOXTYPE  XY+ props ENDEL
-                | PATH     flags LAYER DATATYPE [PATHTYPE] [WIDTH] [BGNEXTN] [ENDEXTN] XY+ props ENDEL
+                | PATH     flags LAYER DATATYPE [PATHTYPE] [WIDTH] [BGNEXTN] [ENDEXTN] XY1 XY* props ENDEL
                 | SREF     flags SNAME [STRANS [MAG] [ANGLE]] XY props ENDEL
                 | AREF     flags SNAME [STRANS [MAG] [ANGLE]] COLROW XY props ENDEL
                 | TEXT     flags LAYER TEXTTYPE [PRESENTATION] [PATHTYPE] [WIDTH] [STRANS [MAG] [ANGLE]] XY STRING props ENDEL
      flags     := {ELFLAGS | PLEX}         props := {PROPATTR PROPVALUE}
      libopt    := REFLIBS | FONTS | ATTRTABLE | GENERATIONS | FORMAT | MASK | ENDMASKS
+
+   Value restrictions (streams outside them are not GDSII, and the real readers leave the model there):
+     PATH: the first XY record holds at least one point (read_gds indexes data32[0..1] and loops data_length - 2 times);
+     WIDTH > -2^31 (the code negates the int32); COLROW columns, rows in 1..32767 (the code divides by them);
+     UNITS: both reals positive (sign clear, mantissa non-zero: the code divides by / scales with them);
+     strings (LIBNAME STRNAME SNAME STRING): no NUL except one final pad byte (the code keeps a C string).
 
    Field values are read with the same accessors as the reader model (byte order is C19's / the
    round-trip theorem's business); what is proved here is that grammar position and reader state agree:
@@ -55,6 +61,14 @@ Definition take_xy (l : recs) : option (list pt * recs) :=
   | [] => None
   end.
 
+(* XY+ whose first record holds at least one point (PATH: read_gds reads data32[0], data32[1] of the first record
+   unconditionally and then copies data_length - 2 more numbers: an empty first record wraps that count around) *)
+Definition take_xy1 (l : recs) : option (list pt * recs) :=
+  match l with
+  | r :: _ => if 8 <=? plen r then take_xy l else None
+  | [] => None
+  end.
+
 Fixpoint take_props (acc : gprops) (l : recs) : gprops * recs :=
   match l with
   | ra :: rv :: tl =>
@@ -71,9 +85,13 @@ Definition take1 (t d : N) (len : N) (l : recs) : option (grecord * recs) :=
   end.
 Definition opt1 (t d : N) (len : N) (l : recs) : option grecord * recs :=
   match take1 t d len l with Some (r, tl) => (Some r, tl) | None => (None, l) end.
+(* strings: the reader drops one trailing NUL and then keeps the bytes as a C string, so a NUL anywhere else would cut it
+   short; gdstk (and the format) pad an odd-length string with ONE NUL and never write another *)
+Fixpoint no_nulb (s : bytes) : bool :=
+  match s with [] => true | b :: tl => negb (b =? 0) && no_nulb tl end.
 Definition take_str (t : N) (l : recs) : option (bytes * recs) :=
   match l with
-  | r :: tl => if is_rec t 6 r then Some (strip_nul (payload r), tl) else None
+  | r :: tl => if is_rec t 6 r && no_nulb (strip_nul (payload r)) then Some (strip_nul (payload r), tl) else None
   | [] => None
   end.
 Definition take_endel (l : recs) : option recs :=
@@ -85,6 +103,17 @@ Definition take_endel (l : recs) : option recs :=
 Definition f16 (r : grecord) : Z := d16 (swap2 (payload r)) 0.
 Definition f32 (r : grecord) : Z := d32 (swap4 (payload r)) 0.
 Definition f64 (r : grecord) : N := d64 (swap8 (payload r)) 0.
+
+(* WIDTH: the reader computes `-data32[0]` for a negative value: -2^31 has no negation in int32 *)
+Definition width_ok (ow : option grecord) : bool :=
+  match ow with Some r => (-2147483648 <? f32 r)%Z | None => true end.
+(* COLROW: the reader divides the lattice extent by columns and by rows *)
+Definition colrow_ok (rc : grecord) : bool :=
+  (1 <=? d16 (swap2 (payload rc)) 0)%Z && (1 <=? d16 (swap2 (payload rc)) 1)%Z.
+(* an 8-byte real that is positive: sign bit clear, mantissa non-zero *)
+Definition real_pos (v : N) : bool := (v <? 9223372036854775808) && (0 <? real_mantissa v).
+Definition units_ok (ru : grecord) : bool :=
+  real_pos (d64 (swap8 (payload ru)) 0) && real_pos (d64 (swap8 (payload ru)) 1).
 
 (* [STRANS [MAG] [ANGLE]] *)
 Definition take_strans (l : recs) : (bool * N * N) * recs :=
@@ -124,7 +153,8 @@ Definition spec_path (l : recs) : option (gelem * recs) :=
   let '(ow, l) := opt1 15 3 4 l in
   let '(ob, l) := opt1 48 3 4 l in
   let '(oe, l) := opt1 49 3 4 l in
-  match take_xy l with None => None | Some (pts, l) =>
+  if width_ok ow then
+  match take_xy1 l with None => None | Some (pts, l) =>
   let '(ps, l) := take_props [] l in
   match take_endel l with None => None | Some l =>
     let en := match opt_ with
@@ -135,7 +165,7 @@ Definition spec_path (l : recs) : option (gelem * recs) :=
                    h_scale_width := match ow with Some _ => (0 <=? w)%Z | None => false end;
                    h_ext := (match ob with Some r => f32 r | None => 0%Z end, match oe with Some r => f32 r | None => 0%Z end);
                    h_pts := pts; h_props := ps |}, l)
-  end end end end.
+  end end else None end end.
 
 Definition spec_ref (array : bool) (l : recs) : option (gelem * recs) :=
   let l := skip_flags l in
@@ -143,6 +173,7 @@ Definition spec_ref (array : bool) (l : recs) : option (gelem * recs) :=
   let '((refl, mag, rot), l) := take_strans l in
   if array then
     match take1 19 2 4 l with None => None | Some (rc, l) =>
+    if colrow_ok rc then
     match take1 16 3 24 l with None => None | Some (rx, l) =>
     let '(ps, l) := take_props [] l in
     match take_endel l with None => None | Some l =>
@@ -156,7 +187,7 @@ Definition spec_ref (array : bool) (l : recs) : option (gelem * recs) :=
                        g_p2 := (d32 mem 2, snd origin); g_p3 := (fst origin, d32 mem 5) |} in
       Some (ERef {| r_name := nm; r_origin := origin; r_refl := refl; r_mag := mag; r_rot := rot;
                     r_rep := Some g; r_props := ps |}, l)
-    end end end
+    end end else None end
   else
     match take1 16 3 8 l with None => None | Some (rx, l) =>
     let '(ps, l) := take_props [] l in
@@ -173,7 +204,8 @@ Definition spec_text (l : recs) : option (gelem * recs) :=
   match take1 22 2 2 l with None => None | Some (rt, l) =>
   let '(opr, l) := opt1 23 1 2 l in
   let '(_, l) := opt1 33 2 2 l in
-  let '(_, l) := opt1 15 3 4 l in
+  let '(ow, l) := opt1 15 3 4 l in
+  if width_ok ow then
   let '((refl, mag, rot), l) := take_strans l in
   match take1 16 3 8 l with None => None | Some (rx, l) =>
   match take_str 25 l with None => None | Some (tx, l) =>
@@ -183,7 +215,7 @@ Definition spec_text (l : recs) : option (gelem * recs) :=
     Some (ELabel {| l_layer := f16 rl; l_type := f16 rt; l_text := tx; l_origin := (d32 mem 0, d32 mem 1);
                     l_anchor := match opr with Some r => Z.to_N (f16 r mod 16) | None => 0 end;
                     l_refl := refl; l_mag := mag; l_rot := rot; l_props := ps |}, l)
-  end end end end end.
+  end end end else None end end.
 
 Definition spec_element (l : recs) : option (gelem * recs) :=
   match l with
@@ -262,9 +294,10 @@ Definition spec_records (l : recs) : option glib :=
   match take1 1 2 24 l with None => None | Some (_, l) =>
   match take_str 2 l with None => None | Some (nm, l) =>
   match take1 3 5 16 (skip_libopt l) with None => None | Some (ru, l) =>
+  if units_ok ru then
   match spec_structures (length l) l with None => None | Some (cs, _) =>
     Some {| g_name := nm; g_units := (d64 (swap8 (payload ru)) 0, d64 (swap8 (payload ru)) 1); g_cells := cs |}
-  end end end end end.
+  end else None end end end end.
 
 (* strict framing: every record has an even length of at least 4 and is complete *)
 Fixpoint frame_all (fuel : nat) (bs : bytes) : option recs :=
